@@ -10,18 +10,78 @@ import (
 // shape is a lambda list: req required parameters (a b c), optional
 // parameters (o1 o2; true = has a default), &rest r, key parameters (k1 k2 k3;
 // true = has a default), &aux (x1 70) x2.
+//
+// mode selects one further dimension of the lambda list (0 = the plain shape):
+//
+//	'f'  every default is a FORM with a side effect that reads all earlier parameters:
+//	     (o1 (tr 'o1 (list 'o1 a))), &aux (x1 (tr 'x1 (list 'x1 <all>))) (x2 (tr 'x2 (list 'x2 x1)))
+//	's'  every &optional / &key parameter has a supplied-p variable: (o1 51 o1-p)
+//	'q'  every &key parameter is written ((:qk1 k1) 61): the caller's keyword differs from the variable
+//	'L' 'U' 'M'  long parameter names (aa op1 rs ky1 xa1) declared in lower / UPPER / Mixed case in the
+//	     lambda list (the body reads them in lower case; slip symbols are case-insensitive)
+//
+// aok adds &allow-other-keys after the key parameters (&key is written even without key parameters).
 type shape struct {
 	req  int
 	opt  []bool
 	rest bool
 	key  []bool
 	aux  bool
+	mode byte
+	aok  bool
 }
 
-var reqNames = []string{"a", "b", "c"}
+type nameTable struct {
+	req  []string
+	opt  []string
+	rest string
+	key  []string
+	aux  []string
+	unk  string // the unknown key
+}
 
-func optName(i int) string { return "o" + strconv.Itoa(i+1) }
-func keyName(i int) string { return "k" + strconv.Itoa(i+1) }
+var (
+	shortNames = &nameTable{req: []string{"a", "b", "c"}, opt: []string{"o1", "o2"}, rest: "r", key: []string{"k1", "k2", "k3"}, aux: []string{"x1", "x2"}, unk: "zz"}
+	longNames  = &nameTable{req: []string{"aa", "bb", "cc"}, opt: []string{"op1", "op2"}, rest: "rs", key: []string{"ky1", "ky2", "ky3"}, aux: []string{"xa1", "xa2"}, unk: "zz"}
+)
+
+func (sh *shape) caseMode() bool { return sh.mode == 'L' || sh.mode == 'U' || sh.mode == 'M' }
+
+func (sh *shape) nt() *nameTable {
+	if sh.caseMode() {
+		return longNames
+	}
+	return shortNames
+}
+
+func (sh *shape) reqName(i int) string { return sh.nt().req[i] }
+func (sh *shape) optName(i int) string { return sh.nt().opt[i] }
+func (sh *shape) keyName(i int) string { return sh.nt().key[i] }
+func (sh *shape) restName() string     { return sh.nt().rest }
+func (sh *shape) auxName(i int) string { return sh.nt().aux[i] }
+func (sh *shape) unknownKey() string   { return sh.nt().unk }
+
+// keyArg is the keyword (lower case, without the colon) a caller uses for key parameter i.
+func (sh *shape) keyArg(i int) string {
+	if sh.mode == 'q' {
+		return "q" + sh.keyName(i)
+	}
+	return sh.keyName(i)
+}
+
+// spell applies a spelling ('L' lower, 'U' upper, 'M' first letter upper) to a name.
+func spell(name string, mode byte) string {
+	switch mode {
+	case 'U':
+		return strings.ToUpper(name)
+	case 'M':
+		return strings.ToUpper(name[:1]) + name[1:]
+	}
+	return name
+}
+
+// decl is the spelling of a parameter name in the lambda list.
+func (sh *shape) decl(name string) string { return spell(name, sh.mode) }
 
 const (
 	optDefaultBase = 51 // o1 -> 51, o2 -> 52
@@ -62,84 +122,199 @@ func b01(b bool) string {
 	return "0"
 }
 
-// code is the spec rendering: req|opt|rest|key|aux
+// code is the spec rendering: req|opt|rest|key|aux, the aux field carries the mode letter and "+" for &allow-other-keys
 func (sh *shape) code() string {
-	return strconv.Itoa(sh.req) + "|" + flags(sh.opt) + "|" + b01(sh.rest) + "|" + flags(sh.key) + "|" + b01(sh.aux)
+	s := strconv.Itoa(sh.req) + "|" + flags(sh.opt) + "|" + b01(sh.rest) + "|" + flags(sh.key) + "|" + b01(sh.aux)
+	if sh.mode != 0 {
+		s += string(sh.mode)
+	}
+	if sh.aok {
+		s += "+"
+	}
+	return s
+}
+
+func (sh *shape) hasKeySection() bool { return 0 < len(sh.key) || sh.aok }
+
+// formDefault is the init-form of parameter name in 'f' mode: logs the name, yields (name <earlier parameters>).
+func formDefault(name string, earlier []string) string {
+	return "(tr '" + name + " (list '" + name + strings.Join(append([]string{""}, earlier...), " ") + "))"
+}
+
+// earlierNames: the parameters to the left of the given lambda-list section ("opt" i, "key" i, "aux").
+func (sh *shape) earlierNames(section string, i int) []string {
+	var out []string
+	for j := 0; j < sh.req; j++ {
+		out = append(out, sh.reqName(j))
+	}
+	if section == "opt" {
+		for j := 0; j < i; j++ {
+			out = append(out, sh.optName(j))
+		}
+		return out
+	}
+	for j := range sh.opt {
+		out = append(out, sh.optName(j))
+	}
+	if sh.rest {
+		out = append(out, sh.restName())
+	}
+	if section == "key" {
+		for j := 0; j < i; j++ {
+			out = append(out, sh.keyName(j))
+		}
+		return out
+	}
+	for j := range sh.key {
+		out = append(out, sh.keyName(j))
+	}
+	return out
 }
 
 // lambdaList renders the Lisp lambda list.
 func (sh *shape) lambdaList() string {
 	var p []string
-	p = append(p, reqNames[:sh.req]...)
+	for i := 0; i < sh.req; i++ {
+		p = append(p, sh.decl(sh.reqName(i)))
+	}
+	param := func(section string, i int, name string, hasDefault bool, base int) string {
+		n := sh.decl(name)
+		dflt := "nil"
+		if hasDefault {
+			dflt = strconv.Itoa(base + i)
+		}
+		switch {
+		case sh.mode == 'f' && hasDefault:
+			return "(" + n + " " + formDefault(name, sh.earlierNames(section, i)) + ")"
+		case sh.mode == 's':
+			return "(" + n + " " + dflt + " " + n + "-p)"
+		case sh.mode == 'q' && section == "key" && hasDefault:
+			return "((:" + sh.keyArg(i) + " " + n + ") " + dflt + ")"
+		case sh.mode == 'q' && section == "key":
+			return "((:" + sh.keyArg(i) + " " + n + "))"
+		case hasDefault:
+			return "(" + n + " " + dflt + ")"
+		}
+		return n
+	}
 	if 0 < len(sh.opt) {
 		p = append(p, "&optional")
 		for i, d := range sh.opt {
-			if d {
-				p = append(p, "("+optName(i)+" "+strconv.Itoa(optDefaultBase+i)+")")
-			} else {
-				p = append(p, optName(i))
-			}
+			p = append(p, param("opt", i, sh.optName(i), d, optDefaultBase))
 		}
 	}
 	if sh.rest {
-		p = append(p, "&rest", "r")
+		p = append(p, "&rest", sh.decl(sh.restName()))
 	}
-	if 0 < len(sh.key) {
+	if sh.hasKeySection() {
 		p = append(p, "&key")
 		for i, d := range sh.key {
-			if d {
-				p = append(p, "("+keyName(i)+" "+strconv.Itoa(keyDefaultBase+i)+")")
-			} else {
-				p = append(p, keyName(i))
-			}
+			p = append(p, param("key", i, sh.keyName(i), d, keyDefaultBase))
+		}
+		if sh.aok {
+			p = append(p, "&allow-other-keys")
 		}
 	}
 	if sh.aux {
-		p = append(p, "&aux", "(x1 "+strconv.Itoa(auxValue)+")", "x2")
+		x1, x2 := sh.auxName(0), sh.auxName(1)
+		if sh.mode == 'f' {
+			p = append(p, "&aux", "("+x1+" "+formDefault(x1, sh.earlierNames("aux", 0))+")", "("+x2+" "+formDefault(x2, []string{x1})+")")
+		} else {
+			p = append(p, "&aux", "("+sh.decl(x1)+" "+strconv.Itoa(auxValue)+")", sh.decl(x2))
+		}
 	}
 	return "(" + strings.Join(p, " ") + ")"
 }
 
-// params lists all parameter names in lambda-list order (the body returns them as a list).
-func (sh *shape) params() (names, kinds []string) {
+// genericLambdaList is the lambda list of the defgeneric that goes with this shape: no defaults, no &aux.
+func (sh *shape) genericLambdaList() string {
+	var p []string
 	for i := 0; i < sh.req; i++ {
-		names, kinds = append(names, reqNames[i]), append(kinds, "required")
+		p = append(p, sh.decl(sh.reqName(i)))
 	}
-	for i := range sh.opt {
-		names, kinds = append(names, optName(i)), append(kinds, "optional")
+	if 0 < len(sh.opt) {
+		p = append(p, "&optional")
+		for i := range sh.opt {
+			p = append(p, sh.decl(sh.optName(i)))
+		}
 	}
 	if sh.rest {
-		names, kinds = append(names, "r"), append(kinds, "rest")
+		p = append(p, "&rest", sh.decl(sh.restName()))
+	}
+	if sh.hasKeySection() {
+		p = append(p, "&key")
+		for i := range sh.key {
+			p = append(p, sh.decl(sh.keyName(i)))
+		}
+		if sh.aok {
+			p = append(p, "&allow-other-keys")
+		}
+	}
+	return "(" + strings.Join(p, " ") + ")"
+}
+
+// params lists all parameter names (lower case) in lambda-list order (the body returns them as a list).
+func (sh *shape) params() (names, kinds []string) {
+	for i := 0; i < sh.req; i++ {
+		names, kinds = append(names, sh.reqName(i)), append(kinds, "required")
+	}
+	for i := range sh.opt {
+		names, kinds = append(names, sh.optName(i)), append(kinds, "optional")
+		if sh.mode == 's' {
+			names, kinds = append(names, sh.optName(i)+"-p"), append(kinds, "optional-supplied-p")
+		}
+	}
+	if sh.rest {
+		names, kinds = append(names, sh.restName()), append(kinds, "rest")
 	}
 	for i := range sh.key {
-		names, kinds = append(names, keyName(i)), append(kinds, "key")
+		names, kinds = append(names, sh.keyName(i)), append(kinds, "key")
+		if sh.mode == 's' {
+			names, kinds = append(names, sh.keyName(i)+"-p"), append(kinds, "key-supplied-p")
+		}
 	}
 	if sh.aux {
-		names, kinds = append(names, "x1", "x2"), append(kinds, "aux", "aux")
+		names, kinds = append(names, sh.auxName(0), sh.auxName(1)), append(kinds, "aux", "aux")
 	}
 	return
 }
 
 // ---------------------------------------------------------------- arguments
 
-// arg is one actual argument: a keyword (kw != "") or the fixnum 100+index.
+// arg is one actual argument: a keyword (kw != "", spelled as the caller writes it), nil, t or the fixnum 100+index.
 type arg struct {
 	kw    string
 	val   int
 	isNil bool // an explicit nil argument (token "n")
+	isT   bool // the argument t (token "#t")
+	form  bool // macro routes: a fixnum is passed as the unevaluated form (tr <index> <value>)
 }
 
+// text is the canonical rendering of the value the function must see.
 func (a arg) text() string {
-	if a.isNil {
+	switch {
+	case a.isNil:
 		return "nil"
-	}
-	if a.kw != "" {
-		return ":" + a.kw
+	case a.isT:
+		return "t"
+	case a.kw != "":
+		return ":" + strings.ToLower(a.kw)
+	case a.form:
+		return "(tr " + strconv.Itoa(a.val-100) + " " + strconv.Itoa(a.val) + ")"
 	}
 	return strconv.Itoa(a.val)
 }
 
-// parseArgs: tokens separated by ',' : "v" = a fixnum (value 100+index), "n" = an explicit nil, anything else = keyword of that name.
+// callText is what the caller writes.
+func (a arg) callText() string {
+	if a.kw != "" {
+		return ":" + a.kw
+	}
+	return a.text()
+}
+
+// parseArgs: tokens separated by ',' : "v" = a fixnum (value 100+index), "n" = an explicit nil, "#t" = t,
+// anything else = keyword of that name and spelling.
 func parseArgs(s string) []arg {
 	if s == "" {
 		return nil
@@ -147,16 +322,21 @@ func parseArgs(s string) []arg {
 	toks := strings.Split(s, ",")
 	out := make([]arg, len(toks))
 	for i, t := range toks {
-		if t == "v" {
+		switch t {
+		case "v":
 			out[i] = arg{val: 100 + i}
-		} else if t == "n" {
+		case "n":
 			out[i] = arg{isNil: true}
-		} else {
+		case "#t":
+			out[i] = arg{isT: true}
+		default:
 			out[i] = arg{kw: t}
 		}
 	}
 	return out
 }
+
+const aokKey = "allow-other-keys"
 
 // ---------------------------------------------------------------- reference binder (CLHS 3.4.1)
 
@@ -181,6 +361,18 @@ const (
 	mKeyDefaultIgnored
 	mUnknownKeyClobbersParam
 	mExplicitNilIsAbsent
+	// sixth round
+	mSuppliedPFromValue
+	mFormEvaluatedWhenSupplied
+	mKeyDefaultsEvaluatedFirst
+	mFormSeesNoEarlierParameter
+	mAllowOtherKeysStillRejected
+	mAllowOtherKeysArgIsUnknownKey
+	mKeysBeforeOptionals
+	mAbsentSeesEnclosingBinding
+	mKeySpellingNotFolded
+	mDeclaredSpellingNotFolded
+	mKeywordSpecUsesVariableName
 )
 
 var mutationNames = map[mutation]string{
@@ -193,22 +385,46 @@ var mutationNames = map[mutation]string{
 	mKeyDefaultIgnored:       "absent &key gets nil instead of its default",
 	mUnknownKeyClobbersParam: "an unknown key whose name equals a parameter name overwrites that parameter",
 	mExplicitNilIsAbsent:     "an explicit nil for an &optional or &key parameter counts as absent (the default is used)",
+
+	mSuppliedPFromValue:            "supplied-p is t whenever the value is non-nil",
+	mFormEvaluatedWhenSupplied:     "a default form is evaluated although the argument was supplied",
+	mKeyDefaultsEvaluatedFirst:     "the default forms of &key parameters are evaluated before those of &optional parameters",
+	mFormSeesNoEarlierParameter:    "a default form is evaluated before the earlier parameters are bound (reads nil)",
+	mAllowOtherKeysStillRejected:   "an unknown key is rejected although &allow-other-keys / :allow-other-keys t allows it",
+	mAllowOtherKeysArgIsUnknownKey: ":allow-other-keys in the call is itself rejected as an unknown key",
+	mKeysBeforeOptionals:           "the lambda list binds &key before &optional (a declared keyword among the optional positions starts the key section)",
+	mAbsentSeesEnclosingBinding:    "an absent &optional / &rest / &key parameter takes the value of a like-named variable of the enclosing scope instead of its default",
+	mKeySpellingNotFolded:          "a keyword spelled with upper-case letters by the caller is not recognised (bound under the caller's spelling)",
+	mDeclaredSpellingNotFolded:     "a &key parameter declared with upper-case letters is never matched by the caller's keyword",
+	mKeywordSpecUsesVariableName:   "((:keyword var) default): the variable name is used as the keyword",
 }
 
-// outcome of a bind: err != "" (reason) or the rendered value list.
+// outcome of a bind: err != "" (reason) or the rendered value list plus the order in which default forms were evaluated.
 type outcome struct {
-	err  string // "too-few" | "too-many" | "non-keyword-in-key-position" | "odd-key-tail" | "unknown-key"
-	vals []string
+	err   string // "too-few" | "too-many" | "non-keyword-in-key-position" | "odd-key-tail" | "unknown-key"
+	vals  []string
+	trace []string
+}
+
+func (o outcome) valueString() string {
+	if len(o.vals) == 0 {
+		return "nil"
+	}
+	return "(" + strings.Join(o.vals, " ") + ")"
 }
 
 func (o outcome) String() string {
 	if o.err != "" {
 		return "ERR"
 	}
-	if len(o.vals) == 0 {
-		return "nil"
+	return withTrace(o.valueString(), o.trace)
+}
+
+func withTrace(val string, trace []string) string {
+	if len(trace) == 0 {
+		return val
 	}
-	return "(" + strings.Join(o.vals, " ") + ")"
+	return val + " evaluated=" + strings.Join(trace, ",")
 }
 
 func renderList(as []arg) string {
@@ -224,19 +440,43 @@ func renderList(as []arg) string {
 
 // bind is the reference binder.
 func bind(sh *shape, args []arg, v variant, m mutation) outcome {
+	return bindEnv(sh, args, v, m, nil)
+}
+
+// bindEnv: env holds the like-named variables visible around the call (ignored by the reference, read by one mutant).
+func bindEnv(sh *shape, args []arg, v variant, m mutation, env map[string]string) outcome {
 	bound := map[string]string{}
 	if len(args) < sh.req {
 		if m != mMissingRequiredAccepted {
 			return outcome{err: "too-few"}
 		}
 	}
+	declared := func(kw string) int {
+		for i := range sh.key {
+			want := sh.keyArg(i)
+			if m == mKeywordSpecUsesVariableName {
+				want = sh.keyName(i)
+			}
+			switch {
+			case m == mDeclaredSpellingNotFolded && sh.decl(want) != want:
+				// never matched
+			case m == mKeySpellingNotFolded:
+				if want == kw {
+					return i
+				}
+			case strings.EqualFold(want, kw):
+				return i
+			}
+		}
+		return -1
+	}
 	ai := 0
 	for i := 0; i < sh.req; i++ {
 		if ai < len(args) {
-			bound[reqNames[i]] = args[ai].text()
+			bound[sh.reqName(i)] = args[ai].text()
 			ai++
 		} else {
-			bound[reqNames[i]] = "nil"
+			bound[sh.reqName(i)] = "nil"
 		}
 	}
 	for i := range sh.opt {
@@ -244,30 +484,25 @@ func bind(sh *shape, args []arg, v variant, m mutation) outcome {
 			if m == mKeywordSkipsOptional && args[ai].kw != "" && 0 < len(sh.key) {
 				break
 			}
+			if m == mKeysBeforeOptionals && args[ai].kw != "" && 0 <= declared(args[ai].kw) {
+				break
+			}
 			if !(m == mExplicitNilIsAbsent && args[ai].isNil) {
-				bound[optName(i)] = args[ai].text()
+				bound[sh.optName(i)] = args[ai].text()
 			}
 			ai++
 		}
 	}
 	rem := args[ai:]
-	declared := func(kw string) int {
-		for i := range sh.key {
-			if keyName(i) == kw {
-				return i
-			}
-		}
-		return -1
-	}
 	switch {
-	case len(sh.key) == 0 && !sh.rest:
+	case !sh.hasKeySection() && !sh.rest:
 		if 0 < len(rem) && m != mTooManyAccepted {
 			return outcome{err: "too-many"}
 		}
-	case len(sh.key) == 0:
-		bound["r"] = renderList(rem)
+	case !sh.hasKeySection():
+		bound[sh.restName()] = renderList(rem)
 		if m == mRestDropsFirst && 0 < len(rem) {
-			bound["r"] = renderList(rem[1:])
+			bound[sh.restName()] = renderList(rem[1:])
 		}
 	default:
 		ks := rem
@@ -280,9 +515,19 @@ func bind(sh *shape, args []arg, v variant, m mutation) outcome {
 				}
 				restPart, ks = rem[:n], rem[n:]
 			}
-			bound["r"] = renderList(restPart)
+			bound[sh.restName()] = renderList(restPart)
 			if m == mRestDropsFirst && 0 < len(restPart) {
-				bound["r"] = renderList(restPart[1:])
+				bound[sh.restName()] = renderList(restPart[1:])
+			}
+		}
+		// other keys are allowed by &allow-other-keys or by the first :allow-other-keys pair of the call having a true value
+		allowed := sh.aok
+		for i := 0; i+1 < len(ks); i += 2 {
+			if strings.EqualFold(ks[i].kw, aokKey) {
+				if !ks[i+1].isNil {
+					allowed = true
+				}
+				break
 			}
 		}
 		names, _ := sh.params()
@@ -303,56 +548,145 @@ func bind(sh *shape, args []arg, v variant, m mutation) outcome {
 			}
 			pair++
 			if ki < 0 {
-				if v.unknownError {
+				if strings.EqualFold(ks[i].kw, aokKey) {
+					if m == mAllowOtherKeysArgIsUnknownKey {
+						return outcome{err: "unknown-key"}
+					}
+					continue
+				}
+				if (v.unknownError && !allowed) || (allowed && m == mAllowOtherKeysStillRejected) {
 					return outcome{err: "unknown-key"}
 				}
 				if m == mUnknownKeyClobbersParam {
 					for _, n := range names {
-						if n == ks[i].kw {
+						if n == strings.ToLower(ks[i].kw) {
 							bound[n] = ks[i+1].text()
 						}
 					}
 				}
 				continue
 			}
-			if _, has := bound[keyName(ki)]; has && !v.dupRight {
+			if _, has := bound[sh.keyName(ki)]; has && !v.dupRight {
 				continue
 			}
 			if m == mExplicitNilIsAbsent && ks[i+1].isNil {
 				continue
 			}
-			bound[keyName(ki)] = ks[i+1].text()
+			bound[sh.keyName(ki)] = ks[i+1].text()
 		}
 	}
-	// defaults
+	// defaults, left to right
+	var optTrace, keyTrace, auxTrace []string
+	formValue := func(name string, earlier []string) string {
+		p := []string{name}
+		for _, e := range earlier {
+			if m == mFormSeesNoEarlierParameter {
+				p = append(p, "nil")
+			} else {
+				p = append(p, bound[e])
+			}
+		}
+		return "(" + strings.Join(p, " ") + ")"
+	}
+	absent := func(name string) (string, bool) { // the mutant's idea of an absent parameter's value
+		if m == mAbsentSeesEnclosingBinding {
+			if ev, has := env[name]; has {
+				return ev, true
+			}
+		}
+		return "", false
+	}
+	suppliedP := func(name string, supplied bool) {
+		if sh.mode != 's' {
+			return
+		}
+		if m == mSuppliedPFromValue {
+			supplied = bound[name] != "nil"
+		}
+		bound[name+"-p"] = "nil"
+		if supplied {
+			bound[name+"-p"] = "t"
+		}
+	}
 	for i, d := range sh.opt {
-		if _, has := bound[optName(i)]; !has {
-			bound[optName(i)] = "nil"
-			if d && m != mOptionalDefaultIgnored {
-				bound[optName(i)] = strconv.Itoa(optDefaultBase + i)
+		name := sh.optName(i)
+		_, has := bound[name]
+		if !has {
+			if ev, leak := absent(name); leak {
+				bound[name] = ev
+			} else {
+				bound[name] = "nil"
+				switch {
+				case d && m == mOptionalDefaultIgnored:
+				case d && sh.mode == 'f':
+					bound[name] = formValue(name, sh.earlierNames("opt", i))
+					optTrace = append(optTrace, name)
+				case d:
+					bound[name] = strconv.Itoa(optDefaultBase + i)
+				}
+			}
+		} else if d && sh.mode == 'f' && m == mFormEvaluatedWhenSupplied {
+			optTrace = append(optTrace, name)
+		}
+		suppliedP(name, has)
+	}
+	if sh.rest {
+		if bound[sh.restName()] == "nil" {
+			if ev, leak := absent(sh.restName()); leak {
+				bound[sh.restName()] = ev
 			}
 		}
 	}
 	for i, d := range sh.key {
-		if _, has := bound[keyName(i)]; !has {
-			bound[keyName(i)] = "nil"
-			if d && m != mKeyDefaultIgnored {
-				bound[keyName(i)] = strconv.Itoa(keyDefaultBase + i)
+		name := sh.keyName(i)
+		_, has := bound[name]
+		if !has {
+			if ev, leak := absent(name); leak {
+				bound[name] = ev
+			} else {
+				bound[name] = "nil"
+				switch {
+				case d && m == mKeyDefaultIgnored:
+				case d && sh.mode == 'f':
+					bound[name] = formValue(name, sh.earlierNames("key", i))
+					keyTrace = append(keyTrace, name)
+				case d:
+					bound[name] = strconv.Itoa(keyDefaultBase + i)
+				}
 			}
+		} else if d && sh.mode == 'f' && m == mFormEvaluatedWhenSupplied {
+			keyTrace = append(keyTrace, name)
 		}
+		suppliedP(name, has)
 	}
 	if sh.aux {
-		if _, has := bound["x1"]; !has || m != mUnknownKeyClobbersParam {
-			bound["x1"] = strconv.Itoa(auxValue)
+		x1, x2 := sh.auxName(0), sh.auxName(1)
+		clobber := m == mUnknownKeyClobbersParam
+		if _, has := bound[x1]; !has || !clobber {
+			bound[x1] = strconv.Itoa(auxValue)
+			if sh.mode == 'f' {
+				bound[x1] = formValue(x1, sh.earlierNames("aux", 0))
+			}
 		}
-		if _, has := bound["x2"]; !has || m != mUnknownKeyClobbersParam {
-			bound["x2"] = "nil"
+		if _, has := bound[x2]; !has || !clobber {
+			bound[x2] = "nil"
+			if sh.mode == 'f' {
+				bound[x2] = formValue(x2, []string{x1})
+			}
+		}
+		if sh.mode == 'f' {
+			auxTrace = []string{x1, x2}
 		}
 	}
 	names, _ := sh.params()
 	out := outcome{vals: make([]string, len(names))}
 	for i, n := range names {
 		out.vals[i] = bound[n]
+	}
+	if m == mKeyDefaultsEvaluatedFirst {
+		out.trace = append(append(append(out.trace, keyTrace...), optTrace...), auxTrace...)
+	} else {
+		out.trace = append(append(append(out.trace, optTrace...), keyTrace...), auxTrace...)
 	}
 	return out
 }
@@ -379,6 +713,12 @@ type expectation struct {
 
 func acceptable(sh *shape, args []arg) *expectation {
 	e := &expectation{set: map[string]bool{}, errReasons: map[string]bool{}}
+	e.add(sh, args)
+	return e
+}
+
+// add widens the expectation by the outcomes of another argument vector (routes that may pass the arguments in either order).
+func (e *expectation) add(sh *shape, args []arg) {
 	for _, v := range allVariants {
 		o := bind(sh, args, v, mNone)
 		s := o.String()
@@ -389,10 +729,19 @@ func acceptable(sh *shape, args []arg) *expectation {
 		}
 		e.set[s] = true
 	}
-	return e
 }
 
 func (e *expectation) onlyError() bool { return len(e.values) == 0 }
+
+// hasValues tells whether the value list (without regard to the evaluation trace) is one of the allowed ones.
+func (e *expectation) hasValues(val string) bool {
+	for _, o := range e.values {
+		if o.valueString() == val {
+			return true
+		}
+	}
+	return false
+}
 
 func (e *expectation) describe() string {
 	var p []string
